@@ -178,6 +178,48 @@ fn special_forms() -> Vec<String> {
         "{% set a, z = 1, 2 %}{{ a }}",
         "{% if x %}{% set a = 1 %}{% endif %}{{ a }}",
     ];
+    // macro and call-block signatures: every assignment of defaults to up to three parameters, a
+    // default being a literal, an outer name, an earlier parameter or a later parameter, called with
+    // every number of positional arguments
+    let params = ["a", "y", "k"];
+    for n in 1..=3usize {
+        let kinds = 5usize; // none, literal, outer name x, earlier/later parameter by index
+        for code in 0..kinds.pow(n as u32) {
+            let mut k = code;
+            let mut sig = vec![];
+            let mut ok = true;
+            let mut seen_default = false;
+            for i in 0..n {
+                let kind = k % kinds;
+                k /= kinds;
+                let d = match kind {
+                    0 => None,
+                    1 => Some("1".to_string()),
+                    2 => Some("x".to_string()),
+                    3 => Some(params[(i + n - 1) % n].to_string()),
+                    _ => Some(params[(i + 1) % n].to_string()),
+                };
+                // parameters without a default cannot follow parameters with one
+                if d.is_none() && seen_default {
+                    ok = false;
+                }
+                seen_default |= d.is_some();
+                sig.push(match d {
+                    Some(d) => format!("{}={}", params[i], d),
+                    None => params[i].to_string(),
+                });
+            }
+            if !ok {
+                continue;
+            }
+            let body: String = params[..n].iter().map(|p| format!("{{{{ {} }}}}", p)).collect();
+            for nargs in 0..=n {
+                let args: Vec<&str> = ["1", "2", "3"][..nargs].to_vec();
+                out.push(format!("{{% macro mm({}) %}}{}{{% endmacro %}}{{{{ mm({}) }}}}", sig.join(", "), body, args.join(", ")));
+                out.push(format!("{{% macro cw() %}}{{{{ caller({}) }}}}{{% endmacro %}}{{% call({}) cw() %}}{}{{% endcall %}}", args.join(", "), sig.join(", "), body));
+            }
+        }
+    }
     for (pre, post) in headers {
         for b in binders {
             out.push(format!("{}{}{}", pre, b, post));
@@ -334,7 +376,7 @@ pub fn main(args: Args) -> i32 {
             level: "exploration",
             tier: args.tier,
             seed: args.seed,
-            rule: format!("{} hand-enumerated assignment-bearing and expression forms (self-referential set, with, dotted set, unpacking, slices/subscripts, macro defaults/bodies/closures, call blocks with arguments, loops reading their own target, set-blocks, autoescape expressions, filter blocks, special names; 14 constructs reading a name in their header x 8 ways of binding the same name at the top of their body, with and without a read after the construct) plus every {} program of the depth-2 generator space{}; each rendered with a recording context object under all-keys, no-keys and every subset of up to 4 mentioned keys; every recorded key must be in undeclared_variables(false) (or a global) and be the head of a path of undeclared_variables(true). distinct non-trivial = distinct sources whose render looked up at least one key", specials.len(), if stride == 1 { "".to_string() } else { format!("{}th", stride) }, if args.tier == Tier::Thorough { " and every 211th depth-3 program" } else { "" }),
+            rule: format!("{} hand-enumerated assignment-bearing and expression forms (self-referential set, with, dotted set, unpacking, slices/subscripts, macro defaults/bodies/closures, call blocks with arguments, loops reading their own target, set-blocks, autoescape expressions, filter blocks, special names; 14 constructs reading a name in their header x 8 ways of binding the same name at the top of their body, with and without a read after the construct; every macro and call-block signature of up to 3 parameters whose defaults are absent, a literal, an outer name, an earlier or a later parameter, called with every number of arguments) plus every {} program of the depth-2 generator space{}; each rendered with a recording context object under all-keys, no-keys and every subset of up to 4 mentioned keys; every recorded key must be in undeclared_variables(false) (or a global) and be the head of a path of undeclared_variables(true). distinct non-trivial = distinct sources whose render looked up at least one key", specials.len(), if stride == 1 { "".to_string() } else { format!("{}th", stride) }, if args.tier == Tier::Thorough { " and every 211th depth-3 program" } else { "" }),
             exhaustive: true,
             bound: json!({"context_key_pool": pool_values().keys().collect::<Vec<_>>()}),
             assumptions: vec!["debug info is switched off (a failing render otherwise re-reads every mentioned name for its error report)".into(), "the reserved names loop/self/super/caller/varargs/kwargs are not judged".into(), "single-file templates only (include/import/extends are documented as out of scope of the analysis)".into()],
